@@ -519,6 +519,8 @@ impl Parser {
                 // scopes match this dependency against the declaration by type.
                 let declared = previous_ty.ty().unwrap().as_ref();
                 if !declared.is_directly_callback_variable() {
+                    // later reads in this function see the declared type as well
+                    user_data.add_dependency(&x.idents[0].clone_with_type(Cow::Owned(declared.clone())));
                     x.idents[0].set_type_no_link(Cow::Owned(TypeLayout::CallbackVariable(
                         Box::new(declared.clone()),
                     )));
